@@ -79,7 +79,7 @@ class Node:
 
         else:
             value = self.parse_child(value)
-            value.__parent_index = idx
+            value.__parent_index = idx + len(self.__children) if idx < 0 else idx
             self.__children.__setitem__(idx, value)
 
     def __getitem__(self: _NodeType, *args, **kwargs) ->Union[_NodeType, List[_NodeType]]:
